@@ -84,6 +84,9 @@ package types
 //@ (define-fun raisedHas ((s (Array enterprise.Key (Slice Int))) (id Int)) Bool (not (sl.nil (select s (kRaised id)))))
 //@ (define-fun acceptedHas ((s (Array enterprise.Key (Slice Int))) (id Int)) Bool (not (sl.nil (select s (kAccepted id)))))
 //@ (define-fun wlHas ((s (Array enterprise.Key (Slice Int))) (a BytesV)) Bool (not (sl.nil (select s (kWhitelist a)))))
+//@ ; every whitelist entry holds the address it is keyed by (the listing reads the values, membership tests read the keys)
+//@ (define-fun ENT_WL_WF ((s (Array enterprise.Key (Slice Int)))) Bool
+//@   (forall ((a BytesV)) (! (=> (wlHas s a) (and (= (bytesval (select s (kWhitelist a))) a) (<= 1 (sl.len (select s (kWhitelist a)))) (<= (sl.len (select s (kWhitelist a))) 255))) :pattern ((select s (kWhitelist a))))))
 //@ (define-fun entHighestSet ((s (Array enterprise.Key (Slice Int)))) Bool (not (sl.nil (select s kEHighest))))
 //@ (define-fun entHighestIs ((s (Array enterprise.Key (Slice Int))) (v Int)) Bool (and (not (sl.nil (select s kEHighest))) (= (sl.len (select s kEHighest)) 8) (= (u64dec (select s kEHighest)) v)))
 //@ (define-fun raisedKeyId ((k enterprise.Key)) Int (kRaised.id k))
@@ -338,6 +341,7 @@ package types
 //@   props C16 C03
 //@   ensures err == nil ==> is_string(i) && len(unbox_string(i)) > 0
 //@   ensures err == nil ==> forall j int :: {splitOn(unbox_string(i), ",")[j]} 0 <= j && j < len(splitOn(unbox_string(i), ",")) ==> validBech32(splitOn(unbox_string(i), ",")[j])
+//@   ensures @accepts_every_wellformed_list is_string(i) && len(unbox_string(i)) > 0 && len(splitOn(unbox_string(i), ",")) >= 1 && (forall j int :: {splitOn(unbox_string(i), ",")[j]} 0 <= j && j < len(splitOn(unbox_string(i), ",")) ==> validBech32(splitOn(unbox_string(i), ",")[j])) ==> err == nil
 //@   loop 0: invariant 0 - 1 <= rangeindex && rangeindex < len(entSigners) && entSigners == splitOn(unbox_string(i), ",") && is_string(i)
 //@   loop 0: invariant forall j int :: {entSigners[j]} 0 <= j && j <= rangeindex ==> validBech32(entSigners[j])
 
@@ -348,6 +352,34 @@ package types
 //@   ensures @positive err == nil ==> p.MinAccepts >= 1 && p.DecisionTimeLimit >= 1
 //@   ensures @signers_wellformed err == nil ==> forall j int :: {signers[j]} 0 <= j && j < len(signers) ==> validBech32(signers[j])
 //@   ensures @quorum_possible err == nil ==> len(signers) >= p.MinAccepts
+//@   ensures @accepts_every_valid_set validDenom(p.Denom) && p.MinAccepts >= 1 && p.DecisionTimeLimit >= 1 && len(p.EntSigners) > 0 && len(signers) >= 1 && len(signers) >= p.MinAccepts && (forall j int :: {signers[j]} 0 <= j && j < len(signers) ==> validBech32(signers[j])) ==> err == nil
+
+// Genesis validation accepts only documents with valid parameters, a starting order id of at least 1, orders that carry
+// an id, a well-formed purchaser, a valid positive amount, one of the four statuses and well-formed accept/reject
+// decisions, and locked / spent entries with a well-formed owner and a valid amount (C15, C16: nothing else reaches
+// InitGenesis through the application's genesis validation).
+//@ func ValidateGenesis(data) (err)
+//@   props C15 C16
+//@   pure
+//@   let pos := data.PurchaseOrders
+//@   let lus := data.LockedUnd
+//@   let sps := data.SpentEfund
+//@   ensures @params_valid err == nil ==> validDenom(data.Params.Denom) && data.Params.MinAccepts >= 1 && data.Params.DecisionTimeLimit >= 1 && len(splitOn(data.Params.EntSigners, ",")) >= data.Params.MinAccepts
+//@   ensures @starting_id err == nil ==> data.StartingPurchaseOrderId >= 1
+//@   ensures @orders_wellformed err == nil ==> forall j int :: {pos[j]} 0 <= j && j < len(pos) ==> pos[j].Id >= 1 && validBech32(pos[j].Purchaser) && validDenom(pos[j].Amount.Denom) && !isnil(pos[j].Amount.Amount) && Amt(pos[j].Amount) >= 0 && Amt(pos[j].Amount) >= 1 && 1 <= pos[j].Status && pos[j].Status <= 4
+//@   ensures @decisions_wellformed err == nil ==> forall j int, d int :: {pos[j].Decisions[d]} 0 <= j && j < len(pos) && 0 <= d && d < len(pos[j].Decisions) ==> validBech32(pos[j].Decisions[d].Signer) && (pos[j].Decisions[d].Decision == 2 || pos[j].Decisions[d].Decision == 3)
+//@   ensures @locked_wellformed err == nil ==> forall j int :: {lus[j]} 0 <= j && j < len(lus) ==> validBech32(lus[j].Owner) && validDenom(lus[j].Amount.Denom) && !isnil(lus[j].Amount.Amount) && Amt(lus[j].Amount) >= 0
+//@   ensures @spent_wellformed err == nil ==> forall j int :: {sps[j]} 0 <= j && j < len(sps) ==> validBech32(sps[j].Owner) && validDenom(sps[j].Amount.Denom) && !isnil(sps[j].Amount.Amount) && Amt(sps[j].Amount) >= 0
+//@   ensures @rejects_only_malformed err != nil ==> !(validDenom(data.Params.Denom) && data.Params.MinAccepts >= 1 && data.Params.DecisionTimeLimit >= 1 && len(data.Params.EntSigners) > 0 && len(splitOn(data.Params.EntSigners, ",")) >= 1 && len(splitOn(data.Params.EntSigners, ",")) >= data.Params.MinAccepts && (forall q int :: {splitOn(data.Params.EntSigners, ",")[q]} 0 <= q && q < len(splitOn(data.Params.EntSigners, ",")) ==> validBech32(splitOn(data.Params.EntSigners, ",")[q]))) || data.StartingPurchaseOrderId == 0 || (exists j int :: 0 <= j && j < len(pos) && (pos[j].Id == 0 || !validBech32(pos[j].Purchaser) || (!validDenom(pos[j].Amount.Denom) || isnil(pos[j].Amount.Amount) || Amt(pos[j].Amount) < 0) || Amt(pos[j].Amount) == 0 || pos[j].Status < 1 || pos[j].Status > 4 || exists d int :: 0 <= d && d < len(pos[j].Decisions) && (!validBech32(pos[j].Decisions[d].Signer) || (pos[j].Decisions[d].Decision != 2 && pos[j].Decisions[d].Decision != 3)))) || (exists j int :: 0 <= j && j < len(lus) && (!validBech32(lus[j].Owner) || (!validDenom(lus[j].Amount.Denom) || isnil(lus[j].Amount.Amount) || Amt(lus[j].Amount) < 0))) || (exists j int :: 0 <= j && j < len(sps) && (!validBech32(sps[j].Owner) || (!validDenom(sps[j].Amount.Denom) || isnil(sps[j].Amount.Amount) || Amt(sps[j].Amount) < 0)))
+//@   loop 0: invariant 0 - 1 <= rangeindex && rangeindex < len(pos) && validDenom(data.Params.Denom) && data.Params.MinAccepts >= 1 && data.Params.DecisionTimeLimit >= 1 && len(splitOn(data.Params.EntSigners, ",")) >= data.Params.MinAccepts && data.StartingPurchaseOrderId >= 1
+//@   loop 0: invariant forall j int :: {pos[j]} 0 <= j && j <= rangeindex ==> pos[j].Id >= 1 && validBech32(pos[j].Purchaser) && validDenom(pos[j].Amount.Denom) && !isnil(pos[j].Amount.Amount) && Amt(pos[j].Amount) >= 0 && Amt(pos[j].Amount) >= 1 && 1 <= pos[j].Status && pos[j].Status <= 4
+//@   loop 0: invariant forall j int, d int :: {pos[j].Decisions[d]} 0 <= j && j <= rangeindex && 0 <= d && d < len(pos[j].Decisions) ==> validBech32(pos[j].Decisions[d].Signer) && (pos[j].Decisions[d].Decision == 2 || pos[j].Decisions[d].Decision == 3)
+//@   loop 1: invariant 0 - 1 <= rangeindex && rangeindex < len(po.Decisions)
+//@   loop 1: invariant forall d int :: {po.Decisions[d]} 0 <= d && d <= rangeindex ==> validBech32(po.Decisions[d].Signer) && (po.Decisions[d].Decision == 2 || po.Decisions[d].Decision == 3)
+//@   loop 2: invariant 0 - 1 <= rangeindex && rangeindex < len(lus)
+//@   loop 2: invariant forall j int :: {lus[j]} 0 <= j && j <= rangeindex ==> validBech32(lus[j].Owner) && validDenom(lus[j].Amount.Denom) && !isnil(lus[j].Amount.Amount) && Amt(lus[j].Amount) >= 0
+//@   loop 3: invariant 0 - 1 <= rangeindex && rangeindex < len(sps)
+//@   loop 3: invariant forall j int :: {sps[j]} 0 <= j && j <= rangeindex ==> validBech32(sps[j].Owner) && validDenom(sps[j].Amount.Denom) && !isnil(sps[j].Amount.Amount) && Amt(sps[j].Amount) >= 0
 
 //@ func validateDenom(i)
 //@   inline
